@@ -42,7 +42,8 @@ CHUNK = 4
 DETERMINISM = {"quick": 4, "thorough": 20}
 PROBES = ["tlslite_client", "tlslite_server", "tls10", "tls11", "tls12",
           "tls13", "client_auth", "alpn", "resumed", "hrr", "ecdsa", "eddsa",
-          "dsa", "rsapss", "ccm", "chacha", "cbc_etm", "big_payload"]
+          "dsa", "rsapss", "ccm", "chacha", "cbc_etm", "big_payload",
+          "version_skew", "dhe_tls12_volume"]
 COMPONENTS_REAL = ["tlslite (client and server)", "OpenSSL 3.0.20 via "
                    "ssl.SSLObject + MemoryBIO (foreign implementation)"]
 COMPONENTS_STUB = ["socket between them (FakeSocket/Pipe)",
@@ -81,6 +82,16 @@ def plan(tier, base_seed):
     n = {"quick": 250, "thorough": 200000}[tier]
     for k in range(n):
         jobs.append({"seed": base_seed * 1000003 + 100000 + k})
+    # TLS <= 1.2 strips leading zero octets from the finite-field DH shared
+    # secret, TLS 1.3 does not: the two implementations only disagree when
+    # the top octet of g^xy is zero (1 in 256), so this cell needs volume
+    m = {"quick": 1200, "thorough": 40000}[tier]
+    dhe = [x for x in (0x009e, 0x0033) if x in shared_suites((3, 3))]
+    for k in range(m if dhe else 0):
+        jobs.append({"seed": base_seed * 1000003 + 300000 + k,
+                     "cell": [["tc", "ts"][k % 2], [3, 3],
+                              dhe[(k // 2) % len(dhe)]],
+                     "volume": True})
     for j in jobs[:3]:
         j["keep"] = True
     return jobs
@@ -143,6 +154,14 @@ def run(job, streams=None):
     hrr = ver == (3, 4) and ch.draw(4, "cfg.hrr") == 1
     tset = {"minVersion": list(ver), "maxVersion": list(ver),
             "useEncryptThenMAC": etm, "useExtendedMasterSecret": ems}
+    if ver < (3, 3) and ch.draw(3, "cfg.skew") == 1:
+        # tlslite supports more than the foreign peer negotiates (the
+        # version in ClientHello / the RSA premaster is then not the
+        # negotiated one)
+        tset["maxVersion"] = [3, 3]
+        probes["version_skew"] = 1
+    if job.get("volume"):
+        probes["dhe_tls12_volume"] = 1
     tset["cipherNames"] = [suite.cipher]
     tset["macNames"] = [suite.mac]
     if suite.kx_setting:
@@ -172,6 +191,8 @@ def run(job, streams=None):
     nconn = 2 if resume else 1
     done_data = False
     octx = None
+    tapes_in = job.get("tape")      # replay against the recorded peer
+    tapes = []
     for k in range(nconn):
         link = net.Link(ch, "random", sim.stats, kernel.Budget(30),
                         kernel.Budget(30), names=("c%d" % k, "s%d" % k))
@@ -193,11 +214,16 @@ def run(job, streams=None):
                     sc["ckey"] = "rsa"
                 if alpn:
                     sc["alpn_c"] = ["h2", "http/1.1"]
-                oep = ossl.OsslEndpoint(
-                    sim, "s%d" % k, link.ssock, True, ver, ver,
-                    key=("server", skey) if skey else None,
-                    verify_client="rsa" if cauth else None,
-                    no_tickets=(opt == 4), ctx=octx, **okw)
+                if tapes_in is not None:
+                    oep = ossl.ReplayOssl(sim, "s%d" % k, link.ssock,
+                                          tapes_in[k])
+                else:
+                    oep = ossl.OsslEndpoint(
+                        sim, "s%d" % k, link.ssock, True, ver, ver,
+                        key=("server", skey) if skey else None,
+                        verify_client="rsa" if cauth else None,
+                        no_tickets=(opt == 4), ctx=octx, **okw)
+                tapes.append(oep.tape)
                 sim.eps.append(oep)
                 tep = sim.endpoint("c%d" % k, link.csock)
                 pair = _PairLike(sc, tep, None)
@@ -214,10 +240,15 @@ def run(job, streams=None):
                     sc["sset"]["ticketKeys"] = ["55" * 32]
                 if cache is None:
                     cache = SessionCache()
-                oep = ossl.OsslEndpoint(
-                    sim, "c%d" % k, link.csock, False, ver, ver,
-                    key=("client", "rsa") if cauth else None,
-                    session=sess_o, sni=None, ctx=octx, **okw)
+                if tapes_in is not None:
+                    oep = ossl.ReplayOssl(sim, "c%d" % k, link.csock,
+                                          tapes_in[k])
+                else:
+                    oep = ossl.OsslEndpoint(
+                        sim, "c%d" % k, link.csock, False, ver, ver,
+                        key=("client", "rsa") if cauth else None,
+                        session=sess_o, sni=None, ctx=octx, **okw)
+                tapes.append(oep.tape)
                 sim.eps.append(oep)
                 tep = sim.endpoint("s%d" % k, link.ssock)
                 pair = _PairLike(sc, None, tep)
@@ -339,8 +370,14 @@ def run(job, streams=None):
         sim.links.remove(link)
         outcome.append(["ok", k, tconn.session.cipherSuite,
                         list(over or ()), bool(tconn.resumed)])
-    return _res(job, ch, sim, viol, probes, done_data and not viol, outcome,
-                ctx[0])
+    res = _res(job, ch, sim, viol, probes, done_data and not viol, outcome,
+               ctx[0])
+    if viol and tapes_in is None:
+        # OpenSSL's randomness is real: the replay file carries the recorded
+        # peer, so the tlslite side meets exactly the same bytes again
+        res["replay_job"] = dict({k_: v_ for k_, v_ in job.items()
+                                  if k_ != "keep"}, tape=tapes)
+    return res
 
 
 class _PairLike(nodes.Pair):
